@@ -3,7 +3,7 @@
 import json, os, sys
 ROOT = os.path.dirname(os.path.dirname(os.path.abspath(__file__)))
 sys.path.insert(0, ROOT)
-from tools.manifest_table import CHECKS, NOT_BUILT
+from tools.manifest_table import CHECKS, NOT_BUILT, ADDENDA
 
 props = [json.loads(l)["id"] for l in open(os.path.join(ROOT, "properties.jsonl"))]
 checks = []
@@ -18,7 +18,7 @@ for pid in props:
         "evidence_file": f"/verif/evidence/{pid}.json",
         "replay_cmd_template": "/venv/bin/python -B vrun.py --replay {path}",
         "engine": "vrun",
-        "level_claimed": {"category": c["level"], "text": c["text"], "design_ref": f"DESIGN.md §3 {pid}"},
+        "level_claimed": {"category": c["level"], "text": c["text"] + (" " + ADDENDA[pid] if pid in ADDENDA else ""), "design_ref": f"DESIGN.md §3 {pid}"},
         "level_note": c["note"],
         "technique": c["technique"],
     })
